@@ -1,6 +1,6 @@
 //! C12 driver: runs the parser alone, or the whole pipeline (parse, rules, generate, write, re-parse) on arbitrary
 //! source texts under a watchdog, and records the lifecycle events of each run.
-//! case: {id, srcb: [bytes] | src: string, mode: "parse" | "process", rules: [json5 rule entries], generator: "dense:1"}
+//! case: {id, srcb: [bytes] | src: string, mode: "parse" | "process" | "bundle", rules: [json5 rule entries], generator: "dense:1"}
 use crate::util::{arg_value, read_ndjson, Out};
 use darklua_core::{Configuration, Options, Parser, Resources};
 use serde_json::{json, Value};
@@ -54,7 +54,15 @@ fn run_one(c: &Value) -> Vec<String> {
         return events;
     }
     let rules: Vec<String> = c["rules"].as_array().map(|a| a.iter().map(|v| rule_entry(v.as_str().unwrap().trim_matches('\''))).collect()).unwrap_or_default();
-    let cfg_text = format!("{{ generator: {}, rules: [{}] }}", generator_entry(c["generator"].as_str().unwrap_or("retain_lines")), rules.join(", "));
+    // mode "bundle": the program is a MODULE required by a short entry file (require mode `path`): rules and generator then
+    // meet tokens that belong to another text than the file being processed
+    let bundled = c["mode"].as_str() == Some("bundle");
+    let cfg_text = format!(
+        "{{ generator: {}, {}rules: [{}] }}",
+        generator_entry(c["generator"].as_str().unwrap_or("retain_lines")),
+        if bundled { "bundle: { require_mode: 'path' }, " } else { "" },
+        rules.join(", ")
+    );
     let config: Configuration = match json5::from_str(&cfg_text) {
         Ok(c) => c,
         Err(e) => {
@@ -63,7 +71,13 @@ fn run_one(c: &Value) -> Vec<String> {
         }
     };
     let resources = Resources::from_memory();
-    resources.write("proj/src/main.lua", &text).unwrap();
+    if bundled {
+        // the module: the program inside a function (it may end with its own return), closed by semicolons
+        resources.write("proj/src/m.lua", &format!("local function body(...)\n{}\nend;\nreturn body;\n", text)).unwrap();
+        resources.write("proj/src/main.lua", "local m = require('./m')\nreturn m;\n").unwrap();
+    } else {
+        resources.write("proj/src/main.lua", &text).unwrap();
+    }
     // what the parser alone says (used to split parse errors from rule errors)
     let parses = Parser::default().parse(&text).is_ok();
     let r = darklua_core::process(&resources, Options::new("proj/src/main.lua").with_output("proj/out/main.lua").with_configuration(config.with_location("proj")));
